@@ -343,6 +343,9 @@ def run(repo, check):
     from sa.rules import columns
     from sa.rules.common import share as _share
     _share(check, repo, columns.rule_columns, 'C02.R11', args=(check.tier, 'C02.R11'))
+    from sa.rules import c07 as _c07
+    _share(check, repo, _c07.rule_r3, 'C02.R12', 'values introduced by marker operators are written with the coding of the element the bitmap designates (shared with C07.R3)',
+           args=(check.tier,))
     check.assumptions = ['bitstring writes an n-bit unsigned field MSB first and refuses values that do not fit (trusted base)',
                          'byte identity with an independent encoder is a runtime fact and is not decided; the rules decide that the encoder '
                          'and the decoder agree on every field sequence and that the arithmetic is the FM-94 one']
